@@ -505,3 +505,58 @@
        (ite (not (= (select H_Message_response m) 0))
             (str.++ (select H_StatusLine_version (select H_Message_response m)) " " (itoa (select H_StatusLine_statusCode (select H_Message_response m))) " " (select H_StatusLine_reason (select H_Message_response m)) "\u{d}\u{a}")
             "")))
+
+;@chunk listtext routeParamText recRouteText viaSeqText routeSeqText recRouteSeqText fromHeadText toHeadText fromHeadTextU toHeadTextU viaSeqTextU routeSeqTextU recRouteSeqTextU
+; a route / record-route entry: name-addr followed by its ';'-separated parameters
+(define-fun routeParamText ((H_SIPURI_Scheme (Array Int String)) (H_SIPURI_User (Array Int String)) (H_SIPURI_Password (Array Int String)) (H_SIPURI_Host (Array Int String)) (H_SIPURI_port (Array Int Int)) (H_SIPURI_Parameters (Array Int Sq_D_KeyValue)) (H_SIPURI_Headers (Array Int Sq_D_KeyValue)) (H_AddrSpec_sipURI (Array Int Int)) (H_AddrSpec_absoluteURI (Array Int Int)) (H_AbsoluteURI_absURI (Array Int String)) (H_NameAddr_DisplayName (Array Int String)) (H_NameAddr_Addr (Array Int Int)) (H_RouteParam_nameAddr (Array Int Int)) (H_RouteParam_rrParam (Array Int Sq_D_KeyValue)) (r Int)) String
+  (str.++ (nameAddrText H_SIPURI_Scheme H_SIPURI_User H_SIPURI_Password H_SIPURI_Host H_SIPURI_port H_SIPURI_Parameters H_SIPURI_Headers H_AddrSpec_sipURI H_AddrSpec_absoluteURI H_AbsoluteURI_absURI H_NameAddr_DisplayName H_NameAddr_Addr (select H_RouteParam_nameAddr r))
+          (kvSeqText ";" (select H_RouteParam_rrParam r) (sq_len_D_KeyValue (select H_RouteParam_rrParam r)))))
+(define-fun recRouteText ((H_SIPURI_Scheme (Array Int String)) (H_SIPURI_User (Array Int String)) (H_SIPURI_Password (Array Int String)) (H_SIPURI_Host (Array Int String)) (H_SIPURI_port (Array Int Int)) (H_SIPURI_Parameters (Array Int Sq_D_KeyValue)) (H_SIPURI_Headers (Array Int Sq_D_KeyValue)) (H_AddrSpec_sipURI (Array Int Int)) (H_AddrSpec_absoluteURI (Array Int Int)) (H_AbsoluteURI_absURI (Array Int String)) (H_NameAddr_DisplayName (Array Int String)) (H_NameAddr_Addr (Array Int Int)) (H_RecRoute_nameAddr (Array Int Int)) (H_RecRoute_rrParam (Array Int Sq_D_KeyValue)) (r Int)) String
+  (str.++ (nameAddrText H_SIPURI_Scheme H_SIPURI_User H_SIPURI_Password H_SIPURI_Host H_SIPURI_port H_SIPURI_Parameters H_SIPURI_Headers H_AddrSpec_sipURI H_AddrSpec_absoluteURI H_AbsoluteURI_absURI H_NameAddr_DisplayName H_NameAddr_Addr (select H_RecRoute_nameAddr r))
+          (kvSeqText ";" (select H_RecRoute_rrParam r) (sq_len_D_KeyValue (select H_RecRoute_rrParam r)))))
+; comma-joined text of the first i entries of a Via / Route / Record-Route list
+(declare-fun viaSeqTextU ((Array Int String) (Array Int String) (Array Int String) (Array Int String) (Array Int Int) (Array Int Sq_D_KeyValue) Sq_Int Int) String)
+(define-fun viaSeqText ((H_ViaParam_ProtocolName (Array Int String)) (H_ViaParam_ProtocolVersion (Array Int String)) (H_ViaParam_Transport (Array Int String)) (H_ViaParam_Host (Array Int String)) (H_ViaParam_port (Array Int Int)) (H_ViaParam_Params (Array Int Sq_D_KeyValue)) (es Sq_Int) (i Int)) String (viaSeqTextU H_ViaParam_ProtocolName H_ViaParam_ProtocolVersion H_ViaParam_Transport H_ViaParam_Host H_ViaParam_port H_ViaParam_Params es i))
+(assert (forall ((H_ViaParam_ProtocolName (Array Int String)) (H_ViaParam_ProtocolVersion (Array Int String)) (H_ViaParam_Transport (Array Int String)) (H_ViaParam_Host (Array Int String)) (H_ViaParam_port (Array Int Int)) (H_ViaParam_Params (Array Int Sq_D_KeyValue)) (es Sq_Int)) (! (= (viaSeqTextU H_ViaParam_ProtocolName H_ViaParam_ProtocolVersion H_ViaParam_Transport H_ViaParam_Host H_ViaParam_port H_ViaParam_Params es 0) "") :pattern ((viaSeqTextU H_ViaParam_ProtocolName H_ViaParam_ProtocolVersion H_ViaParam_Transport H_ViaParam_Host H_ViaParam_port H_ViaParam_Params es 0)))))
+(assert (forall ((H_ViaParam_ProtocolName (Array Int String)) (H_ViaParam_ProtocolVersion (Array Int String)) (H_ViaParam_Transport (Array Int String)) (H_ViaParam_Host (Array Int String)) (H_ViaParam_port (Array Int Int)) (H_ViaParam_Params (Array Int Sq_D_KeyValue)) (es Sq_Int) (i Int))
+  (! (=> (and (> i 0) (<= i (sq_len_Int es)))
+         (= (viaSeqTextU H_ViaParam_ProtocolName H_ViaParam_ProtocolVersion H_ViaParam_Transport H_ViaParam_Host H_ViaParam_port H_ViaParam_Params es i) (str.++ (viaSeqTextU H_ViaParam_ProtocolName H_ViaParam_ProtocolVersion H_ViaParam_Transport H_ViaParam_Host H_ViaParam_port H_ViaParam_Params es (- i 1)) (ite (= i 1) "" ",") (viaParamText H_ViaParam_ProtocolName H_ViaParam_ProtocolVersion H_ViaParam_Transport H_ViaParam_Host H_ViaParam_port H_ViaParam_Params (sq_nth_Int es (- i 1))))))
+     :pattern ((viaSeqTextU H_ViaParam_ProtocolName H_ViaParam_ProtocolVersion H_ViaParam_Transport H_ViaParam_Host H_ViaParam_port H_ViaParam_Params es i)))))
+(declare-fun routeSeqTextU ((Array Int String) (Array Int String) (Array Int String) (Array Int String) (Array Int Int) (Array Int Sq_D_KeyValue) (Array Int Sq_D_KeyValue) (Array Int Int) (Array Int Int) (Array Int String) (Array Int String) (Array Int Int) (Array Int Int) (Array Int Sq_D_KeyValue) Sq_Int Int) String)
+(define-fun routeSeqText ((H_SIPURI_Scheme (Array Int String)) (H_SIPURI_User (Array Int String)) (H_SIPURI_Password (Array Int String)) (H_SIPURI_Host (Array Int String)) (H_SIPURI_port (Array Int Int)) (H_SIPURI_Parameters (Array Int Sq_D_KeyValue)) (H_SIPURI_Headers (Array Int Sq_D_KeyValue)) (H_AddrSpec_sipURI (Array Int Int)) (H_AddrSpec_absoluteURI (Array Int Int)) (H_AbsoluteURI_absURI (Array Int String)) (H_NameAddr_DisplayName (Array Int String)) (H_NameAddr_Addr (Array Int Int)) (H_RouteParam_nameAddr (Array Int Int)) (H_RouteParam_rrParam (Array Int Sq_D_KeyValue)) (es Sq_Int) (i Int)) String (routeSeqTextU H_SIPURI_Scheme H_SIPURI_User H_SIPURI_Password H_SIPURI_Host H_SIPURI_port H_SIPURI_Parameters H_SIPURI_Headers H_AddrSpec_sipURI H_AddrSpec_absoluteURI H_AbsoluteURI_absURI H_NameAddr_DisplayName H_NameAddr_Addr H_RouteParam_nameAddr H_RouteParam_rrParam es i))
+(assert (forall ((H_SIPURI_Scheme (Array Int String)) (H_SIPURI_User (Array Int String)) (H_SIPURI_Password (Array Int String)) (H_SIPURI_Host (Array Int String)) (H_SIPURI_port (Array Int Int)) (H_SIPURI_Parameters (Array Int Sq_D_KeyValue)) (H_SIPURI_Headers (Array Int Sq_D_KeyValue)) (H_AddrSpec_sipURI (Array Int Int)) (H_AddrSpec_absoluteURI (Array Int Int)) (H_AbsoluteURI_absURI (Array Int String)) (H_NameAddr_DisplayName (Array Int String)) (H_NameAddr_Addr (Array Int Int)) (H_RouteParam_nameAddr (Array Int Int)) (H_RouteParam_rrParam (Array Int Sq_D_KeyValue)) (es Sq_Int)) (! (= (routeSeqTextU H_SIPURI_Scheme H_SIPURI_User H_SIPURI_Password H_SIPURI_Host H_SIPURI_port H_SIPURI_Parameters H_SIPURI_Headers H_AddrSpec_sipURI H_AddrSpec_absoluteURI H_AbsoluteURI_absURI H_NameAddr_DisplayName H_NameAddr_Addr H_RouteParam_nameAddr H_RouteParam_rrParam es 0) "") :pattern ((routeSeqTextU H_SIPURI_Scheme H_SIPURI_User H_SIPURI_Password H_SIPURI_Host H_SIPURI_port H_SIPURI_Parameters H_SIPURI_Headers H_AddrSpec_sipURI H_AddrSpec_absoluteURI H_AbsoluteURI_absURI H_NameAddr_DisplayName H_NameAddr_Addr H_RouteParam_nameAddr H_RouteParam_rrParam es 0)))))
+(assert (forall ((H_SIPURI_Scheme (Array Int String)) (H_SIPURI_User (Array Int String)) (H_SIPURI_Password (Array Int String)) (H_SIPURI_Host (Array Int String)) (H_SIPURI_port (Array Int Int)) (H_SIPURI_Parameters (Array Int Sq_D_KeyValue)) (H_SIPURI_Headers (Array Int Sq_D_KeyValue)) (H_AddrSpec_sipURI (Array Int Int)) (H_AddrSpec_absoluteURI (Array Int Int)) (H_AbsoluteURI_absURI (Array Int String)) (H_NameAddr_DisplayName (Array Int String)) (H_NameAddr_Addr (Array Int Int)) (H_RouteParam_nameAddr (Array Int Int)) (H_RouteParam_rrParam (Array Int Sq_D_KeyValue)) (es Sq_Int) (i Int))
+  (! (=> (and (> i 0) (<= i (sq_len_Int es)))
+         (= (routeSeqTextU H_SIPURI_Scheme H_SIPURI_User H_SIPURI_Password H_SIPURI_Host H_SIPURI_port H_SIPURI_Parameters H_SIPURI_Headers H_AddrSpec_sipURI H_AddrSpec_absoluteURI H_AbsoluteURI_absURI H_NameAddr_DisplayName H_NameAddr_Addr H_RouteParam_nameAddr H_RouteParam_rrParam es i) (str.++ (routeSeqTextU H_SIPURI_Scheme H_SIPURI_User H_SIPURI_Password H_SIPURI_Host H_SIPURI_port H_SIPURI_Parameters H_SIPURI_Headers H_AddrSpec_sipURI H_AddrSpec_absoluteURI H_AbsoluteURI_absURI H_NameAddr_DisplayName H_NameAddr_Addr H_RouteParam_nameAddr H_RouteParam_rrParam es (- i 1)) (ite (= i 1) "" ",") (routeParamText H_SIPURI_Scheme H_SIPURI_User H_SIPURI_Password H_SIPURI_Host H_SIPURI_port H_SIPURI_Parameters H_SIPURI_Headers H_AddrSpec_sipURI H_AddrSpec_absoluteURI H_AbsoluteURI_absURI H_NameAddr_DisplayName H_NameAddr_Addr H_RouteParam_nameAddr H_RouteParam_rrParam (sq_nth_Int es (- i 1))))))
+     :pattern ((routeSeqTextU H_SIPURI_Scheme H_SIPURI_User H_SIPURI_Password H_SIPURI_Host H_SIPURI_port H_SIPURI_Parameters H_SIPURI_Headers H_AddrSpec_sipURI H_AddrSpec_absoluteURI H_AbsoluteURI_absURI H_NameAddr_DisplayName H_NameAddr_Addr H_RouteParam_nameAddr H_RouteParam_rrParam es i)))))
+(declare-fun recRouteSeqTextU ((Array Int String) (Array Int String) (Array Int String) (Array Int String) (Array Int Int) (Array Int Sq_D_KeyValue) (Array Int Sq_D_KeyValue) (Array Int Int) (Array Int Int) (Array Int String) (Array Int String) (Array Int Int) (Array Int Int) (Array Int Sq_D_KeyValue) Sq_Int Int) String)
+(define-fun recRouteSeqText ((H_SIPURI_Scheme (Array Int String)) (H_SIPURI_User (Array Int String)) (H_SIPURI_Password (Array Int String)) (H_SIPURI_Host (Array Int String)) (H_SIPURI_port (Array Int Int)) (H_SIPURI_Parameters (Array Int Sq_D_KeyValue)) (H_SIPURI_Headers (Array Int Sq_D_KeyValue)) (H_AddrSpec_sipURI (Array Int Int)) (H_AddrSpec_absoluteURI (Array Int Int)) (H_AbsoluteURI_absURI (Array Int String)) (H_NameAddr_DisplayName (Array Int String)) (H_NameAddr_Addr (Array Int Int)) (H_RecRoute_nameAddr (Array Int Int)) (H_RecRoute_rrParam (Array Int Sq_D_KeyValue)) (es Sq_Int) (i Int)) String (recRouteSeqTextU H_SIPURI_Scheme H_SIPURI_User H_SIPURI_Password H_SIPURI_Host H_SIPURI_port H_SIPURI_Parameters H_SIPURI_Headers H_AddrSpec_sipURI H_AddrSpec_absoluteURI H_AbsoluteURI_absURI H_NameAddr_DisplayName H_NameAddr_Addr H_RecRoute_nameAddr H_RecRoute_rrParam es i))
+(assert (forall ((H_SIPURI_Scheme (Array Int String)) (H_SIPURI_User (Array Int String)) (H_SIPURI_Password (Array Int String)) (H_SIPURI_Host (Array Int String)) (H_SIPURI_port (Array Int Int)) (H_SIPURI_Parameters (Array Int Sq_D_KeyValue)) (H_SIPURI_Headers (Array Int Sq_D_KeyValue)) (H_AddrSpec_sipURI (Array Int Int)) (H_AddrSpec_absoluteURI (Array Int Int)) (H_AbsoluteURI_absURI (Array Int String)) (H_NameAddr_DisplayName (Array Int String)) (H_NameAddr_Addr (Array Int Int)) (H_RecRoute_nameAddr (Array Int Int)) (H_RecRoute_rrParam (Array Int Sq_D_KeyValue)) (es Sq_Int)) (! (= (recRouteSeqTextU H_SIPURI_Scheme H_SIPURI_User H_SIPURI_Password H_SIPURI_Host H_SIPURI_port H_SIPURI_Parameters H_SIPURI_Headers H_AddrSpec_sipURI H_AddrSpec_absoluteURI H_AbsoluteURI_absURI H_NameAddr_DisplayName H_NameAddr_Addr H_RecRoute_nameAddr H_RecRoute_rrParam es 0) "") :pattern ((recRouteSeqTextU H_SIPURI_Scheme H_SIPURI_User H_SIPURI_Password H_SIPURI_Host H_SIPURI_port H_SIPURI_Parameters H_SIPURI_Headers H_AddrSpec_sipURI H_AddrSpec_absoluteURI H_AbsoluteURI_absURI H_NameAddr_DisplayName H_NameAddr_Addr H_RecRoute_nameAddr H_RecRoute_rrParam es 0)))))
+(assert (forall ((H_SIPURI_Scheme (Array Int String)) (H_SIPURI_User (Array Int String)) (H_SIPURI_Password (Array Int String)) (H_SIPURI_Host (Array Int String)) (H_SIPURI_port (Array Int Int)) (H_SIPURI_Parameters (Array Int Sq_D_KeyValue)) (H_SIPURI_Headers (Array Int Sq_D_KeyValue)) (H_AddrSpec_sipURI (Array Int Int)) (H_AddrSpec_absoluteURI (Array Int Int)) (H_AbsoluteURI_absURI (Array Int String)) (H_NameAddr_DisplayName (Array Int String)) (H_NameAddr_Addr (Array Int Int)) (H_RecRoute_nameAddr (Array Int Int)) (H_RecRoute_rrParam (Array Int Sq_D_KeyValue)) (es Sq_Int) (i Int))
+  (! (=> (and (> i 0) (<= i (sq_len_Int es)))
+         (= (recRouteSeqTextU H_SIPURI_Scheme H_SIPURI_User H_SIPURI_Password H_SIPURI_Host H_SIPURI_port H_SIPURI_Parameters H_SIPURI_Headers H_AddrSpec_sipURI H_AddrSpec_absoluteURI H_AbsoluteURI_absURI H_NameAddr_DisplayName H_NameAddr_Addr H_RecRoute_nameAddr H_RecRoute_rrParam es i) (str.++ (recRouteSeqTextU H_SIPURI_Scheme H_SIPURI_User H_SIPURI_Password H_SIPURI_Host H_SIPURI_port H_SIPURI_Parameters H_SIPURI_Headers H_AddrSpec_sipURI H_AddrSpec_absoluteURI H_AbsoluteURI_absURI H_NameAddr_DisplayName H_NameAddr_Addr H_RecRoute_nameAddr H_RecRoute_rrParam es (- i 1)) (ite (= i 1) "" ",") (recRouteText H_SIPURI_Scheme H_SIPURI_User H_SIPURI_Password H_SIPURI_Host H_SIPURI_port H_SIPURI_Parameters H_SIPURI_Headers H_AddrSpec_sipURI H_AddrSpec_absoluteURI H_AbsoluteURI_absURI H_NameAddr_DisplayName H_NameAddr_Addr H_RecRoute_nameAddr H_RecRoute_rrParam (sq_nth_Int es (- i 1))))))
+     :pattern ((recRouteSeqTextU H_SIPURI_Scheme H_SIPURI_User H_SIPURI_Password H_SIPURI_Host H_SIPURI_port H_SIPURI_Parameters H_SIPURI_Headers H_AddrSpec_sipURI H_AddrSpec_absoluteURI H_AbsoluteURI_absURI H_NameAddr_DisplayName H_NameAddr_Addr H_RecRoute_nameAddr H_RecRoute_rrParam es i)))))
+; the part of a FromSpec value before its header parameters: name-addr form or bare addr-spec form (opaque; unfolded by its axiom)
+(declare-fun fromHeadTextU ((Array Int String) (Array Int String) (Array Int String) (Array Int String) (Array Int Int) (Array Int Sq_D_KeyValue) (Array Int Sq_D_KeyValue) (Array Int Int) (Array Int Int) (Array Int String) (Array Int String) (Array Int Int) (Array Int Int) (Array Int Int) Int) String)
+(define-fun fromHeadText ((H_SIPURI_Scheme (Array Int String)) (H_SIPURI_User (Array Int String)) (H_SIPURI_Password (Array Int String)) (H_SIPURI_Host (Array Int String)) (H_SIPURI_port (Array Int Int)) (H_SIPURI_Parameters (Array Int Sq_D_KeyValue)) (H_SIPURI_Headers (Array Int Sq_D_KeyValue)) (H_AddrSpec_sipURI (Array Int Int)) (H_AddrSpec_absoluteURI (Array Int Int)) (H_AbsoluteURI_absURI (Array Int String)) (H_NameAddr_DisplayName (Array Int String)) (H_NameAddr_Addr (Array Int Int)) (H_FromSpec_nameAddr (Array Int Int)) (H_FromSpec_addrSpec (Array Int Int)) (f Int)) String (fromHeadTextU H_SIPURI_Scheme H_SIPURI_User H_SIPURI_Password H_SIPURI_Host H_SIPURI_port H_SIPURI_Parameters H_SIPURI_Headers H_AddrSpec_sipURI H_AddrSpec_absoluteURI H_AbsoluteURI_absURI H_NameAddr_DisplayName H_NameAddr_Addr H_FromSpec_nameAddr H_FromSpec_addrSpec f))
+(assert (forall ((H_SIPURI_Scheme (Array Int String)) (H_SIPURI_User (Array Int String)) (H_SIPURI_Password (Array Int String)) (H_SIPURI_Host (Array Int String)) (H_SIPURI_port (Array Int Int)) (H_SIPURI_Parameters (Array Int Sq_D_KeyValue)) (H_SIPURI_Headers (Array Int Sq_D_KeyValue)) (H_AddrSpec_sipURI (Array Int Int)) (H_AddrSpec_absoluteURI (Array Int Int)) (H_AbsoluteURI_absURI (Array Int String)) (H_NameAddr_DisplayName (Array Int String)) (H_NameAddr_Addr (Array Int Int)) (H_FromSpec_nameAddr (Array Int Int)) (H_FromSpec_addrSpec (Array Int Int)) (f Int))
+  (! (= (fromHeadTextU H_SIPURI_Scheme H_SIPURI_User H_SIPURI_Password H_SIPURI_Host H_SIPURI_port H_SIPURI_Parameters H_SIPURI_Headers H_AddrSpec_sipURI H_AddrSpec_absoluteURI H_AbsoluteURI_absURI H_NameAddr_DisplayName H_NameAddr_Addr H_FromSpec_nameAddr H_FromSpec_addrSpec f)
+        (ite (not (= (select H_FromSpec_nameAddr f) 0)) (nameAddrText H_SIPURI_Scheme H_SIPURI_User H_SIPURI_Password H_SIPURI_Host H_SIPURI_port H_SIPURI_Parameters H_SIPURI_Headers H_AddrSpec_sipURI H_AddrSpec_absoluteURI H_AbsoluteURI_absURI H_NameAddr_DisplayName H_NameAddr_Addr (select H_FromSpec_nameAddr f))
+             (ite (not (= (select H_FromSpec_addrSpec f) 0)) (addrSpecText H_SIPURI_Scheme H_SIPURI_User H_SIPURI_Password H_SIPURI_Host H_SIPURI_port H_SIPURI_Parameters H_SIPURI_Headers H_AddrSpec_sipURI H_AddrSpec_absoluteURI H_AbsoluteURI_absURI (select H_FromSpec_addrSpec f)) "")))
+     :pattern ((fromHeadTextU H_SIPURI_Scheme H_SIPURI_User H_SIPURI_Password H_SIPURI_Host H_SIPURI_port H_SIPURI_Parameters H_SIPURI_Headers H_AddrSpec_sipURI H_AddrSpec_absoluteURI H_AbsoluteURI_absURI H_NameAddr_DisplayName H_NameAddr_Addr H_FromSpec_nameAddr H_FromSpec_addrSpec f)))))
+; the part of a To value before its header parameters: name-addr form or bare addr-spec form (opaque; unfolded by its axiom)
+(declare-fun toHeadTextU ((Array Int String) (Array Int String) (Array Int String) (Array Int String) (Array Int Int) (Array Int Sq_D_KeyValue) (Array Int Sq_D_KeyValue) (Array Int Int) (Array Int Int) (Array Int String) (Array Int String) (Array Int Int) (Array Int Int) (Array Int Int) Int) String)
+(define-fun toHeadText ((H_SIPURI_Scheme (Array Int String)) (H_SIPURI_User (Array Int String)) (H_SIPURI_Password (Array Int String)) (H_SIPURI_Host (Array Int String)) (H_SIPURI_port (Array Int Int)) (H_SIPURI_Parameters (Array Int Sq_D_KeyValue)) (H_SIPURI_Headers (Array Int Sq_D_KeyValue)) (H_AddrSpec_sipURI (Array Int Int)) (H_AddrSpec_absoluteURI (Array Int Int)) (H_AbsoluteURI_absURI (Array Int String)) (H_NameAddr_DisplayName (Array Int String)) (H_NameAddr_Addr (Array Int Int)) (H_To_nameAddr (Array Int Int)) (H_To_addrSpec (Array Int Int)) (f Int)) String (toHeadTextU H_SIPURI_Scheme H_SIPURI_User H_SIPURI_Password H_SIPURI_Host H_SIPURI_port H_SIPURI_Parameters H_SIPURI_Headers H_AddrSpec_sipURI H_AddrSpec_absoluteURI H_AbsoluteURI_absURI H_NameAddr_DisplayName H_NameAddr_Addr H_To_nameAddr H_To_addrSpec f))
+(assert (forall ((H_SIPURI_Scheme (Array Int String)) (H_SIPURI_User (Array Int String)) (H_SIPURI_Password (Array Int String)) (H_SIPURI_Host (Array Int String)) (H_SIPURI_port (Array Int Int)) (H_SIPURI_Parameters (Array Int Sq_D_KeyValue)) (H_SIPURI_Headers (Array Int Sq_D_KeyValue)) (H_AddrSpec_sipURI (Array Int Int)) (H_AddrSpec_absoluteURI (Array Int Int)) (H_AbsoluteURI_absURI (Array Int String)) (H_NameAddr_DisplayName (Array Int String)) (H_NameAddr_Addr (Array Int Int)) (H_To_nameAddr (Array Int Int)) (H_To_addrSpec (Array Int Int)) (f Int))
+  (! (= (toHeadTextU H_SIPURI_Scheme H_SIPURI_User H_SIPURI_Password H_SIPURI_Host H_SIPURI_port H_SIPURI_Parameters H_SIPURI_Headers H_AddrSpec_sipURI H_AddrSpec_absoluteURI H_AbsoluteURI_absURI H_NameAddr_DisplayName H_NameAddr_Addr H_To_nameAddr H_To_addrSpec f)
+        (ite (not (= (select H_To_nameAddr f) 0)) (nameAddrText H_SIPURI_Scheme H_SIPURI_User H_SIPURI_Password H_SIPURI_Host H_SIPURI_port H_SIPURI_Parameters H_SIPURI_Headers H_AddrSpec_sipURI H_AddrSpec_absoluteURI H_AbsoluteURI_absURI H_NameAddr_DisplayName H_NameAddr_Addr (select H_To_nameAddr f))
+             (ite (not (= (select H_To_addrSpec f) 0)) (addrSpecText H_SIPURI_Scheme H_SIPURI_User H_SIPURI_Password H_SIPURI_Host H_SIPURI_port H_SIPURI_Parameters H_SIPURI_Headers H_AddrSpec_sipURI H_AddrSpec_absoluteURI H_AbsoluteURI_absURI (select H_To_addrSpec f)) "")))
+     :pattern ((toHeadTextU H_SIPURI_Scheme H_SIPURI_User H_SIPURI_Password H_SIPURI_Host H_SIPURI_port H_SIPURI_Parameters H_SIPURI_Headers H_AddrSpec_sipURI H_AddrSpec_absoluteURI H_AbsoluteURI_absURI H_NameAddr_DisplayName H_NameAddr_Addr H_To_nameAddr H_To_addrSpec f)))))
+
+;@chunk hdrline hdrNameOf hdrValueOf
+; name and value of a header line "name: value" as the decoder splits it (value with surrounding blanks removed)
+(define-fun hdrNameOf ((l String)) String (str.substr l 0 (str.indexof l ":" 0)))
+(define-fun hdrValueOf ((l String)) String (trimSpace (str.substr l (+ (str.indexof l ":" 0) 1) (- (str.len l) (+ (str.indexof l ":" 0) 1)))))
+;@ghost rlIn (Seq String)
+;@ghost rlOut (Seq String)
+;@ghost rlOk (Seq Bool)
